@@ -171,6 +171,12 @@ def play_category(props=None):
                               s.rd(eq, 'comparison_data_extractor') == s.rd(tuning, 'comparison_data_extractor'),
                               z3.If(s.rd(selfv, 'compare_execution_config') == NONE, TYP(Val.addr(s.rd(eq, 'compare_execution_config'))) == K('CompareExecutionConfig'),
                                     s.rd(eq, 'compare_execution_config') == s.rd(selfv, 'compare_execution_config'))), oc))
+        # each equalizer owns its worker-control state: task / result queues and the terminate event are created for THIS equalizer (new objects),
+        # not taken from the configuration or the studio that every category's equalizer shares -- otherwise stopping one category's worker
+        # stops the others'
+        ctrl = [s.rd(eq, f_) for f_ in ('_compare_tasks', '_compare_results', '_terminate_process')]
+        obl.append(Obl('C19/%s/equalizer_owns_its_queues_and_terminate_event' % U, ('C19', 'C08'), s,
+                       z3.And(*[z3.And(Val.is_ref(c_), Val.addr(c_) >= BASE) for c_ in ctrl] + [z3.Distinct(*[Val.addr(c_) for c_ in ctrl])]), oc))
         # the player closure: player(id) = recorder.play(id, this category's playback function)
         pl = s.rd(eq, 'player'); rid = fresh('some_recording_id')
         # the comparison generator is consumed LATER, possibly after _play_category ran for other categories: whatever this call stored in the
